@@ -52,6 +52,39 @@ type Plan struct {
 	// being silently dropped.
 	PeerClosedWritesFail bool
 	MaxOps               int
+	// Edits[d]: in-transit alterations of direction d, at offsets of the writer's stream, sorted.
+	Edits [2][]Edit
+}
+
+// Edit replaces Del bytes at writer offset Off by Ins (man in the middle).
+type Edit struct {
+	Off int
+	Del int
+	Ins []byte
+}
+
+// apply maps the bytes p written at writer offset base through the edits.
+func applyEdits(edits []Edit, base int, p []byte) []byte {
+	if len(edits) == 0 {
+		return p
+	}
+	out := make([]byte, 0, len(p)+8)
+	for i := 0; i < len(p); i++ {
+		w := base + i
+		skip := false
+		for _, e := range edits {
+			if e.Off == w {
+				out = append(out, e.Ins...)
+			}
+			if w >= e.Off && w < e.Off+e.Del {
+				skip = true
+			}
+		}
+		if !skip {
+			out = append(out, p[i])
+		}
+	}
+	return out
 }
 
 func NoCut() [2]int { return [2]int{-1, -1} }
@@ -292,7 +325,7 @@ func (c *Conn) Write(p []byte) (int, error) {
 		n = s.cut - len(s.all)
 		s.dead = true
 	}
-	s.data = append(s.data, p[:n]...)
+	s.data = append(s.data, applyEdits(l.plan.Edits[c.i], len(s.all), p[:n])...)
 	s.all = append(s.all, p...)
 	l.ev(c.i, "W", len(p), nil)
 	return len(p), nil
